@@ -104,6 +104,25 @@ func c15Cmp(a, b Operand) string {
 	if gv.Form != ref.Finite || gv.Exp != 0 || gv.Coef.Cmp(wv.Coef) != 0 || (want != 0 && gv.Neg != wv.Neg) {
 		return fmt.Sprintf("Context.Cmp = %s, want %d", gv, want)
 	}
+	// where the coefficients have to be aligned (equal digit-count + exponent sums, different exponents) the
+	// destination is also made one of the operands: the aligned copy must not be built in the operand itself
+	if a.V.Form == ref.Finite && b.V.Form == ref.Finite && a.V.Exp != b.V.Exp && a.V.Coef.Sign() != 0 && b.V.Coef.Sign() != 0 && a.V.Adj() == b.V.Adj() {
+		for _, pat := range []string{"d==x", "d==y"} {
+			x, y := a.J.Build(), b.J.Build()
+			dd := x
+			if pat == "d==y" {
+				dd = y
+			}
+			res, err, pan := callOp("Cmp", &c, dd, x, y, 0)
+			if pan != "" {
+				return "Context.Cmp (" + pat + ") panics: " + pan
+			}
+			gv := ToVal(dd)
+			if err != nil || res != 0 || gv.Form != ref.Finite || gv.Exp != 0 || gv.Coef.Cmp(wv.Coef) != 0 || (want != 0 && gv.Neg != wv.Neg) {
+				return fmt.Sprintf("Context.Cmp with %s = %s [%s] err %v, want %d", pat, gv, ref.FlagNames(int(res)), err, want)
+			}
+		}
+	}
 	return ""
 }
 
@@ -354,7 +373,7 @@ func init() {
 	core.Register(&core.Prop{
 		ID:    "C15",
 		Title: "Cmp is the exact numeric order and CmpTotal is the documented total order",
-		Rule:  "all ordered pairs of the value alphabet V through Decimal.Cmp/Context.Cmp against exact comparison, and through CmpTotal against antisymmetry, zero-iff-identical and the documented order; all ordered triples of W for transitivity; every pair/triple is distinct and counted",
+		Rule:  "all ordered pairs of the value alphabet V through Decimal.Cmp/Context.Cmp (also with the destination aliased to either operand where the coefficients must be aligned) against exact comparison, and through CmpTotal against antisymmetry, zero-iff-identical and the documented order; all ordered triples of W for transitivity; every pair/triple is distinct and counted",
 		Bounds: func(tier string) string {
 			V, W := c15Values(tier)
 			return fmt.Sprintf("|V| = %d (DENSE + EDGE + zeros + clean/dirty infinities + coinciding digit-count+exponent family + LIMIT) => %d ordered pairs; HUGE: 3 exponent pairs more than 100000 apart x 18 operands with tying digit-count + exponent sums (coefficients of 100001+ digits), all ordered pairs; |W| = %d (finite + all NaN/sNaN signs x payloads + infinities + limits) => %d ordered triples", len(V), len(V)*len(V), len(W), len(W)*len(W)*len(W))
